@@ -1,8 +1,8 @@
 SPECIFICATION FairSpec
 CONSTANTS
-  N = 4
-  K = 6
-  FaultSel = 0
+  N = 2
+  K = 4
+  FaultSel = 1
   DieSel <- NoDie
   Fault <- MFault
   DieAt <- MDie
